@@ -126,7 +126,7 @@ def signature(line, impl_pub, spec):
     cmd = w[0]
     k = ops_field(line)
     ops = [] if w[k] == '-' else w[k].split(',')
-    sig = {'op': {'R': 'is_in_range', 'I': 'intersect', 'A': 'make_absolute', 'P': 'parse', 'Q': 'parse-tuple'}.get(cmd, cmd)}
+    sig = {'op': {'R': 'is_in_range', 'I': 'intersect', 'A': 'make_absolute', 'P': 'parse', 'Q': 'parse-tuple', 'T': 'parse-object'}.get(cmd, cmd)}
     sig.update(first_diff(ops, impl_pub, spec))
     if cmd == 'R':
         sig['end_neg_inf'] = w[2] == 'Fn'
@@ -163,7 +163,7 @@ def _is_abs(a):
 
 def ops_field(line):
     """index of the OPS token in a protocol line"""
-    return {'R': 5, 'I': 10, 'A': 7, 'P': 3, 'Q': 5, 'PS': 5}[line.split()[0]]
+    return {'R': 5, 'I': 10, 'A': 7, 'P': 3, 'Q': 5, 'PS': 5, 'T': 6}[line.split()[0]]
 
 
 def shrink(model, line, spec_line, sig):
@@ -198,6 +198,13 @@ def run(ctx):
     ctx.notes.append('generated constants: %r' % consts)
     if not ctx.coq():
         ctx.broken_proof()
+    if ctx.thorough:
+        rc, so, se = vf.sh('timeout 1200 coqchk -o -silent -R theories FEC FEC.Properties.C13', cwd=vf.COQ, timeout=1260)
+        so = so + se
+        ax = so[so.find('* Axioms'):][:400] if '* Axioms' in so else so[-400:]
+        ctx.obligation('coqchk -o FEC.Properties.C13: closure re-checked, no axioms', rc == 0 and '* Axioms: <none>' in so, 'coqchk', ' '.join(ax.split()))
+        if not (rc == 0 and '* Axioms: <none>' in so):
+            ctx.broken_proof('coqchk rejected the closure of Properties/C13 or reported axioms')
     model = vf.build_extracted('c13', 'C13', 'c13_driver.ml')
     r = ctx.rng
     B = Batch(model)
@@ -212,7 +219,7 @@ def run(ctx):
                     B.add(main, sl or None, kind='corpus')
 
     # ---- is_in_range: bounded-exhaustive --------------------------------------------------------------
-    L = 6 if ctx.thorough else 5
+    L = 7 if ctx.thorough else 6
     all_seqs = seqs(L, TIMES, untimed=('u', 's'), single_from=5)
     short = [s for s in all_seqs if len(s) <= 3]
     cfgs = [(a, b, c, d) for a in STARTS for b in ENDS for c in '01' for d in ('-', '8')]
@@ -224,9 +231,9 @@ def run(ctx):
             B.add('R %s %s %s %s %s -' % (cfg + (opstr(s),)), kind='exotic')
     # restart(): every history of length <= 2 (3), then restart, then every sequence of length <= 2 (3)
     k = 3 if ctx.thorough else 2
-    seg = [s for s in all_seqs if len(s) <= k]
+    seg = [s for s in all_seqs if len(s) <= 2]
     for cfg in cfgs:
-        for s1 in seg:
+        for s1 in [s for s in all_seqs if len(s) <= k]:
             for s2 in seg:
                 if len(s1) + len(s2) > 0:
                     B.add('R %s %s %s %s %s -' % (cfg + (opstr(s1 + ['r'] + s2),)), kind='restart')
@@ -296,6 +303,11 @@ def run(ctx):
                 for s in r.sample(pseqs, 6):
                     B.add('Q %s %s %s %s %s' % (A[0], A[1], ty, ab, opstr(s)), kind='parse-tuple')
 
+    for A in iranges + EXOTIC:
+        for ab in '-01':
+            for s in r.sample(pseqs, 4):
+                B.add('T %s %s %s %s %s %s' % (A + (ab, opstr(s))), kind='parse-object')
+
     ctx.log('evaluating %d cases' % len(B.lines))
     impl, mdl, spec = B.evaluate()
     ctx.log('evaluated')
@@ -319,9 +331,9 @@ def run(ctx):
         if i.startswith('?') or m.startswith(('?', '!')) or s.startswith(('?', '!')):
             raise RuntimeError('protocol error on %r: impl=%r model=%r spec=%r' % (line, i, m, s))
         if s == 'X':
-            ctx.count('spec:outside-domain')
-        elif s == 'U' or m == 'U':
-            ctx.count('spec:float-text-outside-model')
+            ctx.count('spec:outside-stated-domain (compared IMPL vs MODEL only)')
+        if s == 'U' or m == 'U':
+            ctx.count('parse:float-text-outside-model (skipped)')
         if s not in ('X', 'U') and ip != s:
             sig = signature(line, ip, s)
             key = repr(sorted(sig.items()))
@@ -353,16 +365,16 @@ def run(ctx):
         if kind not in ('exh', 'exotic', 'corpus') and n > 2:
             line, sl = shrink(model, line, sl, sig)
         i, m, lg, s = eval3(model, line, sl)
-        case = {'line': line, 'spec_line': sl, 'impl': i, 'model': m, 'model_before_repairs': lg, 'spec': s, 'found_in': kind}
-        ctx.violation(sig, 'TimeRange: implementation gives %s, the documented interval semantics give %s, on: %s' % (i.split('|')[0], s, line), case)
+        case = {'line': line, 'python': explain(line), 'spec_line': sl, 'impl': i, 'model': m, 'model_before_repairs': lg, 'spec': s, 'found_in': kind}
+        ctx.violation(sig, 'TimeRange: implementation gives %s, the documented interval semantics give %s, on: %s   [%s]' % (i.split('|')[0], s, line, explain(line)), case)
 
     samples = [x for x in zip(B.lines, impl) if x[1].split('|')[0] not in ('-', 'E')]
     for x in samples[::max(1, len(samples) // 6)][:6]:
         ctx.sample({'line': x[0], 'impl': x[1]})
     ctx.coverage['rule'] = (
         'is_in_range: every op sequence of length <= %d over {bytes object, system-timed event, P1 time in {0,1,2,2.5,3,3.5} s non-decreasing with repeats} '
-        'x start in {None,0,1,2.5} x end in {None,0,2,3.5,inf} x absolute/relative x t0 in {unset, 1 s}; the same configurations with restart() between every '
-        'pair of sequences of length <= %d; %d further configurations (Timestamp/NaN-Timestamp/-inf/negative/empty bounds, absolute=None) on all sequences of '
+        'x start in {None,0,1,2.5} x end in {None,0,2,3.5,inf} x absolute/relative x t0 in {unset, 1 s}; the same configurations with restart() after every history of length <= %d '
+        'followed by every sequence of length <= 2; %d further configurations (Timestamp/NaN-Timestamp/-inf/negative/empty bounds, absolute=None) on all sequences of '
         'length <= 3; random sequences of 6-30 ops with NaN-P1 / no-time / MeasurementDetails messages, restarts, return_timestamps=True, float t0. '
         'intersect: all %d x %d pairs of grid ranges (in place and copy) on every sequence of length <= %d, plus random pairs. make_absolute: once and twice. '
         'parse: %d texts of the documented form x absolute argument, malformed / mutated texts, tuples. '
@@ -379,6 +391,44 @@ def run(ctx):
                         'message P1 times and t0 are finite']
 
 
+def _py_bound(tok):
+    if tok == 'N':
+        return 'None'
+    v = {'i': 'inf', 'n': '-inf', 'x': 'nan'}.get(tok[1:]) or repr(int(tok[1:]) / 8.0)
+    return ('Timestamp(%s)' % v) if tok[0] == 'T' else ("float('%s')" % v if v in ('inf', '-inf', 'nan') else v)
+
+
+def _py_range(a):
+    t0 = 'None' if a[3] == '-' else 'Timestamp()' if a[3] == 'x' else 'Timestamp(%r)' % (int(a[3]) / 8.0)
+    return 'TimeRange(start=%s, end=%s, absolute=%s, p1_t0=%s)' % (_py_bound(a[0]), _py_bound(a[1]), {'-': 'None', '0': 'False', '1': 'True'}[a[2]], t0)
+
+
+def _py_ops(tok):
+    names = {'u': 'bytes object', 's': 'EventNotificationMessage(system time)', 'n': 'PoseMessage(p1_time=NaN)', 'v': 'MessageRequest()'}
+    out = []
+    for t in ([] if tok == '-' else tok.split(',')):
+        out.append('restart()' if t == 'r' else names[t] if t in names else '%s(P1 %.3f s)' % ('PoseMessage' if t[0] == 'p' else 'IMUInput', int(t[1:]) / 8.0))
+    return '; '.join(out)
+
+
+def explain(line):
+    """the protocol line as Python calls on the real class"""
+    w = line.split(); c = w[0]
+    if c == 'R':
+        return '%s; is_in_range(%s) on: %s' % (_py_range(w[1:5]), 'return_timestamps=True' if 't' in w[6] else '', _py_ops(w[5]))
+    if c == 'I':
+        return 'A = %s; B = %s; R = A.intersect(B%s); is_in_range on: %s' % (_py_range(w[1:5]), _py_range(w[5:9]), '' if w[9] == '1' else ', in_place=False', _py_ops(w[10]))
+    if c == 'A':
+        return 'r = %s; r.make_absolute(%s)%s; is_in_range on: %s' % (_py_range(w[1:5]), 'None' if w[5] == '-' else 'Timestamp(%r)' % (int(w[5]) / 8.0), ' twice' if w[6] == '1' else '', _py_ops(w[7]))
+    if c == 'P':
+        return 'TimeRange.parse(%r, absolute=%s); is_in_range on: %s' % (bytes.fromhex('' if w[1] == '-' else w[1]).decode('latin1'), {'-': 'None', '0': 'False', '1': 'True'}[w[2]], _py_ops(w[3]))
+    if c == 'Q':
+        return 'TimeRange.parse((%s, %s%s), absolute=%s); is_in_range on: %s' % (_py_bound(w[1]), _py_bound(w[2]), '' if w[3] == '-' else ', %r' % bytes.fromhex(w[3]).decode('latin1'), {'-': 'None', '0': 'False', '1': 'True'}[w[4]], _py_ops(w[5]))
+    if c == 'T':
+        return 'TimeRange.parse(%s, absolute=%s); is_in_range on: %s' % (_py_range(w[1:5]), {'-': 'None', '0': 'False', '1': 'True'}[w[5]], _py_ops(w[6]))
+    return line
+
+
 def replay(ctx, rec):
     case = rec.get('case', rec)
     gen_c13.generate()
@@ -387,5 +437,7 @@ def replay(ctx, rec):
         print(case); return 0
     i, m, lg, s = eval3(model, case['line'], case.get('spec_line'))
     print('CASE ', case['line'])
+    print('      ', explain(case['line']))
+    print('       (verdict string: one 0/1 per message; E = ValueError; after | the private state started ended t0 start end absolute, times in 1/8 s)')
     print('IMPL ', i); print('MODEL', m); print('MODEL(before repairs)', lg); print('SPEC ', s)
     return 0
